@@ -467,7 +467,7 @@ def explore_load(prop, tier, seed, oracle, tags, n_quick, emit=(), with_truth=Fa
                     ex.fail(cid + '-sf', D, ['analysis loaded through a ParserFilter (family %r) that served another file before: %s' % (tid_, (b_ or dd_)[:3])])
             except Exception as e:      # noqa
                 ex.fail(cid + '-sf', D, ['filtered load with a re-used ParserFilter raised %s: %s' % (type(e).__name__, e)])
-        if prop in ('C01', 'C03') and k % 12 == 5 and D.families and not D.meta.get('species_level'):
+        if prop == 'C01' and k % 12 == 5 and D.families and not D.meta.get('species_level'):
             # a REFERENCED gene declared only after the groups section: the streaming loader resolves a reference against the
             # declarations read so far (KeyError), the recursive model reads the species sections first.  Nothing is claimed
             # about such files; the document machine (Sax.dstep) must follow pyham call by call, up to the call that raises
